@@ -3,6 +3,7 @@ package pgx
 import (
 	"context"
 	"database/sql"
+	"strings"
 	"time"
 
 	"github.com/jdillenkofer/pithos/internal/ptrutils"
@@ -42,6 +43,17 @@ const (
 	deleteObjectByIdStmt                                                                                            = "DELETE FROM objects WHERE id = $1"
 	deleteObjectByIdAndOptimisticLockVersionStmt                                                                    = "DELETE FROM objects WHERE id = $1 AND optimistic_lock_version = $2"
 )
+
+// likePatternEscaper escapes the LIKE metacharacters of a literal prefix.
+// PostgreSQL's LIKE uses the backslash as its default escape character, so the
+// statements ("key LIKE $2 || '%'") need no ESCAPE clause.
+var likePatternEscaper = strings.NewReplacer(`\`, `\\`, `%`, `\%`, `_`, `\_`)
+
+// escapeLikePattern makes prefix match only itself when used as a LIKE pattern:
+// an S3 list prefix is a literal byte string, not a pattern.
+func escapeLikePattern(prefix string) string {
+	return likePatternEscaper.Replace(prefix)
+}
 
 func NewRepository() (object.Repository, error) {
 	return &pgxRepository{}, nil
@@ -202,7 +214,7 @@ func (or *pgxRepository) ContainsBucketObjectsByBucketName(ctx context.Context, 
 }
 
 func (or *pgxRepository) FindObjectsByBucketNameAndPrefixAndStartAfterOrderByKeyAsc(ctx context.Context, tx *sql.Tx, bucketName storage.BucketName, prefix string, startAfter string) ([]object.Entity, error) {
-	objectRows, err := tx.QueryContext(ctx, findObjectsByBucketNameAndPrefixAndStartAfterOrderByKeyAscStmt, bucketName.String(), prefix, startAfter, object.UploadStatusCompleted)
+	objectRows, err := tx.QueryContext(ctx, findObjectsByBucketNameAndPrefixAndStartAfterOrderByKeyAscStmt, bucketName.String(), escapeLikePattern(prefix), startAfter, object.UploadStatusCompleted)
 	if err != nil {
 		return nil, err
 	}
@@ -219,7 +231,7 @@ func (or *pgxRepository) FindObjectsByBucketNameAndPrefixAndStartAfterOrderByKey
 }
 
 func (or *pgxRepository) FindObjectsByBucketNameAndPrefixAndStartAfterOrderByKeyAscWithLimit(ctx context.Context, tx *sql.Tx, bucketName storage.BucketName, prefix string, startAfter string, limit int32) ([]object.Entity, error) {
-	objectRows, err := tx.QueryContext(ctx, findObjectsByBucketNameAndPrefixAndStartAfterOrderByKeyAscWithLimitStmt, bucketName.String(), prefix, startAfter, object.UploadStatusCompleted, limit)
+	objectRows, err := tx.QueryContext(ctx, findObjectsByBucketNameAndPrefixAndStartAfterOrderByKeyAscWithLimitStmt, bucketName.String(), escapeLikePattern(prefix), startAfter, object.UploadStatusCompleted, limit)
 	if err != nil {
 		return nil, err
 	}
@@ -236,7 +248,7 @@ func (or *pgxRepository) FindObjectsByBucketNameAndPrefixAndStartAfterOrderByKey
 }
 
 func (or *pgxRepository) FindUploadsByBucketNameAndPrefixAndKeyMarkerAndUploadIdMarkerOrderByKeyAscAndUploadIdAsc(ctx context.Context, tx *sql.Tx, bucketName storage.BucketName, prefix string, keyMarker string, uploadIdMarker string) ([]object.Entity, error) {
-	objectRows, err := tx.QueryContext(ctx, findObjectsByBucketNameAndPrefixAndKeyMarkerAndUploadIdMarkerOrderByKeyAscAndUploadIdAscStmt, bucketName.String(), prefix, keyMarker, uploadIdMarker, object.UploadStatusPending)
+	objectRows, err := tx.QueryContext(ctx, findObjectsByBucketNameAndPrefixAndKeyMarkerAndUploadIdMarkerOrderByKeyAscAndUploadIdAscStmt, bucketName.String(), escapeLikePattern(prefix), keyMarker, uploadIdMarker, object.UploadStatusPending)
 	if err != nil {
 		return nil, err
 	}
@@ -253,7 +265,7 @@ func (or *pgxRepository) FindUploadsByBucketNameAndPrefixAndKeyMarkerAndUploadId
 }
 
 func (or *pgxRepository) FindUploadsByBucketNameAndPrefixAndKeyMarkerAndUploadIdMarkerOrderByKeyAscAndUploadIdAscWithLimit(ctx context.Context, tx *sql.Tx, bucketName storage.BucketName, prefix string, keyMarker string, uploadIdMarker string, limit int32) ([]object.Entity, error) {
-	objectRows, err := tx.QueryContext(ctx, findObjectsByBucketNameAndPrefixAndKeyMarkerAndUploadIdMarkerOrderByKeyAscAndUploadIdAscWithLimitStmt, bucketName.String(), prefix, keyMarker, uploadIdMarker, object.UploadStatusPending, limit)
+	objectRows, err := tx.QueryContext(ctx, findObjectsByBucketNameAndPrefixAndKeyMarkerAndUploadIdMarkerOrderByKeyAscAndUploadIdAscWithLimitStmt, bucketName.String(), escapeLikePattern(prefix), keyMarker, uploadIdMarker, object.UploadStatusPending, limit)
 	if err != nil {
 		return nil, err
 	}
@@ -304,7 +316,7 @@ func (or *pgxRepository) FindObjectByBucketNameAndKey(ctx context.Context, tx *s
 }
 
 func (or *pgxRepository) CountObjectsByBucketNameAndPrefixAndStartAfter(ctx context.Context, tx *sql.Tx, bucketName storage.BucketName, prefix string, startAfter string) (*int, error) {
-	keyCountRow := tx.QueryRowContext(ctx, countObjectsByBucketNameAndPrefixAndStartAfterStmt, bucketName.String(), prefix, startAfter, object.UploadStatusCompleted)
+	keyCountRow := tx.QueryRowContext(ctx, countObjectsByBucketNameAndPrefixAndStartAfterStmt, bucketName.String(), escapeLikePattern(prefix), startAfter, object.UploadStatusCompleted)
 	var keyCount int
 	err := keyCountRow.Scan(&keyCount)
 	if err != nil {
@@ -314,7 +326,7 @@ func (or *pgxRepository) CountObjectsByBucketNameAndPrefixAndStartAfter(ctx cont
 }
 
 func (or *pgxRepository) CountUploadsByBucketNameAndPrefixAndKeyMarkerAndUploadIdMarker(ctx context.Context, tx *sql.Tx, bucketName storage.BucketName, prefix string, keyMarker string, uploadIdMarker string) (*int, error) {
-	keyCountRow := tx.QueryRowContext(ctx, countObjectsByBucketNameAndPrefixAndKeyMarkerAndUploadIdMarkerStmt, bucketName.String(), prefix, keyMarker, uploadIdMarker, object.UploadStatusPending)
+	keyCountRow := tx.QueryRowContext(ctx, countObjectsByBucketNameAndPrefixAndKeyMarkerAndUploadIdMarkerStmt, bucketName.String(), escapeLikePattern(prefix), keyMarker, uploadIdMarker, object.UploadStatusPending)
 	var keyCount int
 	err := keyCountRow.Scan(&keyCount)
 	if err != nil {
@@ -350,7 +362,7 @@ func (or *pgxRepository) DeleteObjectByIdAndOptimisticLockVersion(ctx context.Co
 }
 
 func (or *pgxRepository) FindObjectVersionsByBucketNameAndPrefixAndKeyMarkerAndVersionIDMarkerOrderByKeyAscAndVersionIDDesc(ctx context.Context, tx *sql.Tx, bucketName storage.BucketName, prefix string, keyMarker string, versionIDMarker string) ([]object.Entity, error) {
-	objectRows, err := tx.QueryContext(ctx, findObjectVersionsByBucketNameAndPrefixAndKeyMarkerAndVersionIDMarkerOrderByKeyAscAndVersionIDDescStmt, bucketName.String(), prefix, object.UploadStatusCompleted, keyMarker, versionIDMarker)
+	objectRows, err := tx.QueryContext(ctx, findObjectVersionsByBucketNameAndPrefixAndKeyMarkerAndVersionIDMarkerOrderByKeyAscAndVersionIDDescStmt, bucketName.String(), escapeLikePattern(prefix), object.UploadStatusCompleted, keyMarker, versionIDMarker)
 	if err != nil {
 		return nil, err
 	}
@@ -367,7 +379,7 @@ func (or *pgxRepository) FindObjectVersionsByBucketNameAndPrefixAndKeyMarkerAndV
 }
 
 func (or *pgxRepository) FindObjectVersionsByBucketNameAndPrefixAndKeyMarkerAndVersionIDMarkerOrderByKeyAscAndVersionIDDescWithLimit(ctx context.Context, tx *sql.Tx, bucketName storage.BucketName, prefix string, keyMarker string, versionIDMarker string, limit int32) ([]object.Entity, error) {
-	objectRows, err := tx.QueryContext(ctx, findObjectVersionsByBucketNameAndPrefixAndKeyMarkerAndVersionIDMarkerOrderByKeyAscAndVersionIDDescWithLimitStmt, bucketName.String(), prefix, object.UploadStatusCompleted, keyMarker, versionIDMarker, limit)
+	objectRows, err := tx.QueryContext(ctx, findObjectVersionsByBucketNameAndPrefixAndKeyMarkerAndVersionIDMarkerOrderByKeyAscAndVersionIDDescWithLimitStmt, bucketName.String(), escapeLikePattern(prefix), object.UploadStatusCompleted, keyMarker, versionIDMarker, limit)
 	if err != nil {
 		return nil, err
 	}
